@@ -131,7 +131,7 @@ class EAlias(Engine):
         return {'avoid': bool(desc.get('avoid')), 'init': init,
                 'w_mut': g.pick([1, 2, 3]), 'w_probe': g.pick([0, 1, 2]), 'w_step': g.pick([0, 1, 2]), 'w_cache': g.pick([0, 1]),
                 # knob: isolation must hold whichever bit numbering is in force (other code paths are bound in lsb0 mode)
-                'lsb0': g.chance(0.25)}
+                'lsb0': g.chance(0.25), 'bytealigned': g.chance(0.15)}
 
     # -------------------------------------------------------------------------------------------------
     def start(self, cfg):
@@ -144,6 +144,8 @@ class EAlias(Engine):
         if cfg.get('lsb0'):
             self.B.options.lsb0 = True
             self.probe('run_under_lsb0')
+        if cfg.get('bytealigned'):
+            self.B.options.bytealigned = True
         self.members = {c: [m for m in sorted(dir(getattr(self.B, c))) if not m.startswith('_')] for c in IMMUTABLE}
         for e in cfg.get('init', [])[:6]:
             cls = e.get('cls') if e.get('cls') in CLASSES else 'Bits'
